@@ -187,9 +187,97 @@ def install_images():
     wrap(I.Images, "serialize", _images_serialize)
 
 
+# ------------------------------------------------------------------ dump protocol (C18)
+
+DUMP = {"active": None, "inject": None}     # active: dict of the dump being recorded
+
+
+def _dump_handler(orig, self, a, kw):
+    import os
+    f = a[0] if a else kw.get("f")
+    if not isinstance(f, str) or "://" in f:
+        return orig(self, *a, **kw)
+    existed = os.path.exists(f)
+    rec = {"path": f, "events": [], "n": 0, "top": 0, "nested": 0, "in_ser": 0, "failAt": 0}
+    DUMP["active"] = rec
+    real_ser = self.serialize
+
+    def ser(*sa, **skw):
+        rec["in_ser"] += 1
+        try:
+            return real_ser(*sa, **skw)
+        finally:
+            rec["in_ser"] -= 1
+    self.serialize = ser
+    try:
+        res = orig(self, *a, **kw)
+        rec["events"].append("write")
+        return res
+    finally:
+        DUMP["active"] = None
+        try:
+            del self.serialize
+        except Exception:
+            pass
+        emit(self, "dump", {"cls": type(self).__name__, "top": rec["top"], "nested": rec["nested"], "failAt": rec["failAt"],
+                            "disk0": "Old" if existed else "Absent", "events": rec["events"],
+                            "points": rec.get("points", [])})
+
+
+def _wrap_validator(cls, name):
+    orig = cls.__dict__[name]
+
+    @functools.wraps(orig)
+    def w(self, *a, **kw):
+        rec = DUMP["active"]
+        if rec is None:
+            return orig(self, *a, **kw)
+        rec["n"] += 1
+        idx = rec["n"]
+        rec["nested" if rec["in_ser"] else "top"] += 1
+        rec.setdefault("points", []).append("%s.%s" % (cls.__name__, name))
+        try:
+            if DUMP["inject"] == idx:
+                raise (ValueError if idx % 2 else TypeError)("injected validation failure at point %d %s.%s" % (idx, cls.__name__, name))
+            res = orig(self, *a, **kw)
+        except BaseException:
+            rec["events"].append("raise")
+            rec["failAt"] = idx
+            raise
+        rec["events"].append("v")
+        return res
+    setattr(cls, name, w)
+
+
+def install_dump():
+    import builtins
+    import inspect
+    import productmd.common, productmd.composeinfo, productmd.images, productmd.rpms, productmd.modules  # noqa
+    import productmd.extra_files, productmd.treeinfo, productmd.discinfo  # noqa
+    mods = [productmd.common, productmd.composeinfo, productmd.images, productmd.rpms, productmd.modules,
+            productmd.extra_files, productmd.treeinfo, productmd.discinfo]
+    for mod in mods:
+        for cname, cls in inspect.getmembers(mod, inspect.isclass):
+            if cls.__module__ != mod.__name__:
+                continue
+            for name, fn in list(vars(cls).items()):
+                if name.startswith("_validate") and callable(fn):
+                    _wrap_validator(cls, name)
+    wrap(productmd.common.MetadataBase, "dump", _dump_handler)
+    wrap(productmd.treeinfo.TreeInfo, "dump", _dump_handler)
+    real_open = builtins.open
+
+    def vopen(path, mode="r", *a, **kw):
+        rec = DUMP["active"]
+        if rec is not None and path == rec["path"] and "w" in mode:
+            rec["events"].append("open")
+        return real_open(path, mode, *a, **kw)
+    builtins.open = vopen
+
+
 # ------------------------------------------------------------------ install / flush
 
-INSTALLERS = [install_images]
+INSTALLERS = [install_images, install_dump]
 
 
 def install():
